@@ -17,7 +17,7 @@ import c12_prog as cp
 from common import Check
 
 PID = "C12"
-WORKERS = 8
+WORKERS = int(os.environ.get("VERIF_WORKERS", "8"))
 
 
 # ------------------------------------------------------------------ running both sides
@@ -96,7 +96,7 @@ def oracle(p, run, obs):
             if ended and RANK[tag] > ended[0]:
                 bad.append(("after-termination", f"{e} ran after {ended[1]} in step {t}", dict(step=t)))
             if RANK[tag] < rank:
-                bad.append(("order", f"{e} out of documented order in step {t}", dict(step=t, events=pre)))
+                bad.append(("order", f"{e} out of documented order in step {t}", dict(step=t, step_events=pre)))
             rank = max(rank, RANK[tag])
             if tag == "B":
                 if not seen_agents or seen_agents[-1] != e[1]:
@@ -108,7 +108,7 @@ def oracle(p, run, obs):
                     ended = (-1, "a behavior's terminate [simulation]")
                     # nothing at all may follow (checked below)
                     if pre[k + 1:] and not all(x[0] == "R" and x[1] in p["rec_final"] for x in pre[k + 1:]):
-                        bad.append(("after-termination", f"events after terminate in behavior at step {t}", dict(step=t, events=pre[k:])))
+                        bad.append(("after-termination", f"events after terminate in behavior at step {t}", dict(step=t, step_events=pre[k:])))
                     if done and kind != "terminatedByBehavior":
                         bad.append(("termination-type", f"behavior terminated at step {t} but type is {kind}", dict(step=t)))
             if tag == "S" and e[2] == 91:
@@ -189,7 +189,7 @@ def fam_programs():
     out = []
     loop5 = dict(pre=[], inv=[], body=[("WH", True, [("TK", 5)])])
     two = dict(pre=[], inv=[], body=[("TK", 6), ("TK", 7)])
-    for ts in (1, 0.5, 0.1, 0.25):
+    for ts in (1, 0.5, 0.1):
         durs = [(n, "steps") for n in (0, 1, 2, 3, 1.5, 2.0)] + [(n, "seconds") for n in (0, 0.1, 0.3, 0.5, 0.7, 1, 1.25)]
         for n, unit in durs:
             steps = n / float(ts) if unit == "seconds" else n
@@ -338,7 +338,7 @@ def main():
             cases.append((name, p, cp.program_src(p), dict(tab=[], perms=[], max_steps=H, timestep=ts), (exp, end)))
         for name, p, tab, ts, H, exp, end in fam_until():
             cases.append((name, p, cp.program_src(p), dict(tab=tab, perms=[], max_steps=H, timestep=ts), (exp, end)))
-        nprog = 260 if quick else 6000
+        nprog = 180 if quick else 6000
         for n in range(nprog):
             g = cp.Gen(random.Random(rng.getrandbits(64)))
             p, ts = g.program()
